@@ -1051,6 +1051,8 @@ func runC10(c *Ctx) {
 
 	// ---------- R11 attributes as given: encoded when the handler returns, not when the reply is written ----------
 	checkRepliesFixedWhenHandlerReturns(c, "R11")
+	// R12 (shared with C17.R3): the attribute flags a handler reads through AttrFlags() are the bits the client sent
+	checkAttrFlagBits(c, "R12")
 }
 
 // checkRepliesFixedWhenHandlerReturns (R11): a reply is marshalled by the packet manager's controller after it was
